@@ -404,7 +404,10 @@ class Graph:
         self._memo.clear()
         self.pruned = self._prune_const_switches()
         self.threaded = 0
-        for _pass in range(6):
+        # cloning budget: a value computed once and tested inside a loop at several places would otherwise be
+        # threaded through ever larger copies of the loop
+        self._thread_budget = 8 * len(self.nodes) + 2000
+        for _pass in range(8):
             c = self._thread_jumps()
             self.threaded += c
             if c == 0:
@@ -484,6 +487,11 @@ class Graph:
                 elif rv['k'] == 'use' and rv['op']['k'] in ('copy', 'move') and not rv['op']['pl']['p']:
                     o, a = self._const_origins(iid, rv['op']['pl']['l'], fwd, depth + 1)
                     outs += o
+                    allc = allc and a
+                elif rv['k'] == 'un' and rv['op'] == 'Not' and rv['a']['k'] in ('copy', 'move') and not rv['a']['pl']['p'] \
+                        and rv['a']['pl'].get('ty') == 'bool':
+                    o, a = self._const_origins(iid, rv['a']['pl']['l'], fwd, depth + 1)
+                    outs += [(on, '0' if str(v) != '0' else '1') for (on, v) in o]
                     allc = allc and a
                 elif rv['k'] == 'discr' and not rv['pl']['p']:
                     o, a = self._variant_origins(iid, rv['pl']['l'], fwd, depth + 1)
@@ -646,6 +654,13 @@ class Graph:
                     o, a = self._variant_origins(iid, rv['op']['pl']['l'], fwd, depth + 1)
                     outs += o
                     allc = allc and a
+                elif rv['k'] == 'use' and rv['op']['k'] in ('copy', 'move'):
+                    # the enum is taken out of a field of another value (`(phase as Settled).0`)
+                    o = self._resolve_variant(iid, rv['op']['pl']['l'], list(rv['op']['pl']['p']), fwd, depth + 1)
+                    if o is None:
+                        allc = False
+                    else:
+                        outs += o
                 else:
                     allc = False
             elif d[0] == 'ret':
@@ -705,7 +720,7 @@ class Graph:
                 if o == sid:
                     continue
                 O = self.nodes[o]
-                if not O.succs or len(self.nodes) > 80000:
+                if not O.succs or len(self.nodes) > self._thread_budget:
                     continue
                 tgt = edges.get(v, other)
                 if tgt is None:
@@ -1421,6 +1436,22 @@ class Graph:
         live = self.live()
         return [n.id for n in self.nodes if n.call and n.call['inlined'] is not None
                 and n.id in live and r.search(n.call['name'])]
+
+    def inlined_insts(self, regex):
+        """[(node, instance)] of the inlined instances of functions matching regex: called directly (node = the call)
+        or handed to an iterator adaptor as its callback (node = the adaptor call)"""
+        r = re.compile(regex)
+        live = self.live()
+        out = []
+        for n in self.nodes:
+            if n.id not in live or not n.call:
+                continue
+            if n.call['inlined'] is not None and r.search(n.call['name']):
+                out.append((n.id, n.call['inlined']))
+            for ci in n.call.get('closure_insts') or ():
+                if r.search(self.insts[ci].fn):
+                    out.append((n.id, ci))
+        return out
 
     def where(self, nid):
         n = self.nodes[nid]
